@@ -21,6 +21,7 @@ type Cmd struct {
 	Off      uint32
 	Flags    uint16
 	Raw      byte
+	OK       bool // the master answered the command with OK (queries)
 }
 
 // Fault is a master-side fault injected into the packet stream.
@@ -103,6 +104,15 @@ func (m *Master) Addr() string { return m.addr }
 func (m *Master) DSN() string {
 	return "u:p@tcp(" + m.Addr() + ")/db?maxAllowedPacket=67108864"
 }
+// CloseConns drops every connection accepted so far.
+func (m *Master) CloseConns() {
+	m.mu.Lock()
+	for _, c := range m.open {
+		c.Close()
+	}
+	m.mu.Unlock()
+}
+
 func (m *Master) Close() {
 	m.ln.Close()
 	m.mu.Lock()
@@ -263,7 +273,7 @@ func (m *Master) serve(c net.Conn, p *ServePlan, rec *ConnRecord) {
 			c.Close()
 			return
 		case 0x03:
-			rec.addCmd(Cmd{Kind: "query", SQL: append([]byte(nil), cmd[1:]...)})
+			rec.addCmd(Cmd{Kind: "query", SQL: append([]byte(nil), cmd[1:]...), OK: p.ConnFault != "set_err"})
 			if p.ConnFault == "set_err" {
 				pc.write(errPacket(1193, "Unknown system variable 'binlog_checksum'"))
 				continue
